@@ -726,4 +726,135 @@ theorem visOk_of_walkOkC20b (v : JVal) (h : walkOkVC20b v = true) : visOkC20b v 
   | dict fs => exact h
   | _ => rfl
 
+/-! ### walked trees without un-expanded tagifiable objects: the embeddings coincide with `embJNode` -/
+
+mutual
+  /-- no tagifiable object anywhere in the tree (in a walked tree: none was left un-expanded) -/
+  def noTobjNC20b : JNode → Bool
+    | .comp _ props kids => noTobjPC20b props && noTobjKC20b kids
+    | .tag _ _ kids => noTobjKC20b kids
+    | .tobj _ => false
+    | .tobjL _ => false
+    | _ => true
+  def noTobjKC20b : JNodes → Bool
+    | .nil => true
+    | .cons h t => noTobjNC20b h && noTobjKC20b t
+  def noTobjVC20b : JVal → Bool
+    | .list _ vs => noTobjVsC20b vs
+    | .dict fs => noTobjPC20b fs
+    | .node n => noTobjNC20b n
+    | _ => true
+  def noTobjVsC20b : JVals → Bool
+    | .nil => true
+    | .cons h t => noTobjVC20b h && noTobjVsC20b t
+  def noTobjPC20b : JProps → Bool
+    | .nil => true
+    | .cons _ v t => noTobjVC20b v && noTobjPC20b t
+end
+
+mutual
+  theorem embIn_eq_embJNC20b (ι : Str → Option Int) : (n : JNode) → noTobjNC20b n = true → embInNC20b ι n = embJNode ι n
+    | .comp nm ps ks, h => by
+      simp only [noTobjNC20b, Bool.and_eq_true] at h
+      simp only [embInNC20b, embJNode, embIn_eq_embJPC20b ι ps h.1, embIn_eq_embJKC20b ι ks h.2]
+    | .tag nm a ks, h => by
+      simp only [noTobjNC20b] at h
+      simp only [embInNC20b, embJNode, embIn_eq_embJKC20b ι ks h]
+    | .str k s, _ => by cases k <;> rfl
+    | .md m, _ => by cases m <;> rfl
+    | .tobj e, h => by simp [noTobjNC20b] at h
+    | .tobjL es, h => by simp [noTobjNC20b] at h
+  theorem embIn_eq_embJKC20b (ι : Str → Option Int) : (ks : JNodes) → noTobjKC20b ks = true → embInKC20b ι ks = embJNodes ι ks
+    | .nil, _ => rfl
+    | .cons x t, h => by
+      simp only [noTobjKC20b, Bool.and_eq_true] at h
+      simp only [embInKC20b, embJNodes, embIn_eq_embJNC20b ι x h.1, embIn_eq_embJKC20b ι t h.2]
+  theorem embIn_eq_embJVC20b (ι : Str → Option Int) : (v : JVal) → noTobjVC20b v = true → embInVC20b ι v = embJVal ι v
+    | .null, _ => rfl
+    | .bool _, _ => rfl
+    | .num _, _ => rfl
+    | .list tup vs, h => by
+      simp only [noTobjVC20b] at h
+      simp only [embInVC20b, embJVal, embIn_eq_embJVsC20b ι vs h]
+    | .dict fs, h => by
+      simp only [noTobjVC20b] at h
+      simp only [embInVC20b, embJVal, embIn_eq_embJPC20b ι fs h]
+    | .node n, h => by
+      simp only [noTobjVC20b] at h
+      simp only [embInVC20b, embJVal, embIn_eq_embJNC20b ι n h]
+  theorem embIn_eq_embJVsC20b (ι : Str → Option Int) : (vs : JVals) → noTobjVsC20b vs = true → embInVsC20b ι vs = embJVals ι vs
+    | .nil, _ => rfl
+    | .cons x t, h => by
+      simp only [noTobjVsC20b, Bool.and_eq_true] at h
+      simp only [embInVsC20b, embJVals, embIn_eq_embJVC20b ι x h.1, embIn_eq_embJVsC20b ι t h.2]
+  theorem embIn_eq_embJPC20b (ι : Str → Option Int) : (ps : JProps) → noTobjPC20b ps = true → embInPC20b ι ps = embJProps ι ps
+    | .nil, _ => rfl
+    | .cons k v t, h => by
+      simp only [noTobjPC20b, Bool.and_eq_true] at h
+      simp only [embInPC20b, embJProps, embIn_eq_embJVC20b ι v h.1, embIn_eq_embJPC20b ι t h.2]
+end
+
+mutual
+  theorem embOut_eq_embJNC20b (ι : Str → Option Int) : (n : JNode) → noTobjNC20b n = true → embOutNC20b ι n = embJNode ι n
+    | .comp nm ps ks, h => by
+      simp only [noTobjNC20b, Bool.and_eq_true] at h
+      simp only [embOutNC20b, embJNode, embOut_eq_embJPC20b ι ps h.1, embOut_eq_embJKC20b ι ks h.2]
+    | .tag nm a ks, h => by
+      simp only [noTobjNC20b] at h
+      simp only [embOutNC20b, embJNode, embOut_eq_embJKC20b ι ks h]
+    | .str k s, h => by simp only [embOutNC20b]; exact embIn_eq_embJNC20b ι _ h
+    | .md m, h => by simp only [embOutNC20b]; exact embIn_eq_embJNC20b ι _ h
+    | .tobj e, h => by simp [noTobjNC20b] at h
+    | .tobjL es, h => by simp [noTobjNC20b] at h
+  theorem embOut_eq_embJKC20b (ι : Str → Option Int) : (ks : JNodes) → noTobjKC20b ks = true → embOutKC20b ι ks = embJNodes ι ks
+    | .nil, _ => rfl
+    | .cons x t, h => by
+      simp only [noTobjKC20b, Bool.and_eq_true] at h
+      simp only [embOutKC20b, embJNodes, embOut_eq_embJNC20b ι x h.1, embOut_eq_embJKC20b ι t h.2]
+  theorem embOut_eq_embJPC20b (ι : Str → Option Int) : (ps : JProps) → noTobjPC20b ps = true → embOutPC20b ι ps = embJProps ι ps
+    | .nil, _ => rfl
+    | .cons k v t, h => by
+      simp only [noTobjPC20b, Bool.and_eq_true] at h
+      have hv : embOutVC20b ι v = embJVal ι v := by
+        cases v with
+        | node n => simp only [noTobjVC20b] at h; simp only [embOutVC20b, embJVal, embOut_eq_embJNC20b ι n h.1]
+        | null => rfl
+        | bool _ => rfl
+        | num _ => rfl
+        | list tup vs => simp only [embOutVC20b]; exact embIn_eq_embJVC20b ι _ h.1
+        | dict fs => simp only [embOutVC20b]; exact embIn_eq_embJVC20b ι _ h.1
+      simp only [embOutPC20b, embJProps, hv, embOut_eq_embJPC20b ι t h.2]
+end
+
+/-! ### the script element `tagify` returns -/
+
+/-- the `<script>` Tag `tagify` returns, as `Tag.__init__` leaves it: `js` the JavaScript, `r` / `rd` the two library
+    dependencies, `metas` the collected metadata nodes -/
+def scriptObjC20b (js : Str) (r rd : PVal) (metas : List PVal) : PVal :=
+  .obj "Tag" [("name", .str (chars% "script")), ("add_ws", .bool true),
+    ("attrs", .dict [(chars% "type", .str (chars% "text/javascript")), (chars% "data-needs-render", .str [])]),
+    ("children", .obj "TagList" [("data", .list (.html ('\n' :: js ++ ['\n']) :: r :: rd :: metas))]),
+    ("prev_displayhook", .none)]
+
+/-- the lines `tagify` joins (the list of `jsWrap`, Model/Jsx.lean) -/
+def jsWrapPartsC20b (name component : Str) : List Str := [
+    chars% "(function() {",
+    chars% "  var container = new DocumentFragment();",
+    chars% "  ReactDOM.render(",
+    component,
+    chars% "  , container);",
+    chars% "  var thisScript = document.querySelector('script[data-needs-render]');",
+    chars% "  if (!thisScript) throw new Error('Failed to render JSXTag(\"" ++ (name ++ chars% "\")');"),
+    chars% "  thisScript.after(container);",
+    chars% "  thisScript.removeAttribute('data-needs-render');",
+    chars% "})();"]
+
+theorem jsWrap_partsC20b (name component : Str) : jsWrap name component = joinStr ['\n'] (jsWrapPartsC20b name component) := by
+  simp [jsWrap, jsWrapPartsC20b, List.append_assoc]
+
+theorem char10C20b : Char.ofNat 10 = '\n' := rfl
+theorem char39C20b : Char.ofNat 39 = '\'' := rfl
+theorem char34C20b : Char.ofNat 34 = '"' := rfl
+
+
 end HtmlVerif.SrcTie
